@@ -218,6 +218,9 @@ class Spec(core.PropSpec):
                 ops.append(["respawn", w])
             else:
                 ops.append(["clobber", w, ro.choice(["np", "torch", "py"]), ro.randint(0, 99)])
+        if ro.random() < 0.3:
+            # fault: the storage behind the root fails transiently at some accesses (every worker replica counts its own)
+            stack["root"]["fail_at"] = sorted({ro.randint(1, 12) for _ in range(ro.randint(1, 3))})
         return dict(stack=stack, mode=mode, return_ctx=rw.random() < 0.5, K=K, ops=ops, base_seed=ro.randint(0, 2 ** 40),
                     amb_main=rw.getrandbits(30), amb_ref=rw.getrandbits(30), hook=ro.random() < 0.7)
 
@@ -280,6 +283,7 @@ class Spec(core.PropSpec):
         from simkit.deep import deep_diff, h
         from simkit.simloader import SimWorker
         from simkit.simproc import SimProcess
+        from .simdata import InjectedReadError
         out = core.Outcome()
         stack, mode, rc = plan["stack"], plan["mode"], plan["return_ctx"]
         site = ("fused" if fused_groups(stack) or stack.get("above_seeded") else "plain") + (",concat" if stack.get("concat") else "")
@@ -298,18 +302,19 @@ class Spec(core.PropSpec):
             out.ev("rejected", type(e).__name__, str(e)[:60])
             return out
         refs = {}
+        clean_stack = dict(stack, root=dict(stack["root"], fail_at=[]))
 
         def ref(i):
             if i not in refs:
                 p = SimProcess("ref", plan["amb_ref"] + 13 * i + 1)
                 with p.on_cpu():
-                    refs[i] = reference_sample(build_c01(stack), stack, mode, i, rc)
+                    refs[i] = reference_sample(build_c01(clean_stack), stack, mode, i, rc)
             return refs[i]
 
         # the length the statement implies: the stack's own length
         try:
             with SimProcess("ref", plan["amb_ref"]).on_cpu():
-                n_ref = len(build_c01(stack))
+                n_ref = len(build_c01(clean_stack))
             if n > 0:
                 ref(0)
         except AssertionError:
@@ -378,6 +383,10 @@ class Spec(core.PropSpec):
                         got, exp = list(rep), [ref(j) for j in range(n)]
                     else:
                         got, exp = len(rep), n_ref
+            except InjectedReadError:
+                out.count("fault:transient_read_error_in_root")
+                out.ev("io-error", op)
+                continue  # the access failed (that is allowed); what comes after it must be right again
             except Exception as e:
                 out.violate(f"C01:raises:{type(e).__name__}", f"{kind},{site}", f"stack={S.sig(stack)} mode='{mode}' access {op}: {type(e).__name__}: {e}")
                 out.ev("raised", op, type(e).__name__)
